@@ -253,4 +253,45 @@ theorem fwdConsequence_isSome (as : List (Act S)) (h : ∀ a ∈ as, isCancel a 
   | track k v => simp at hax
   | ext c => simp at hax
 
+/-! ### several wrapped instances in one process -/
+
+/-- what instance `k` returns, and the state it ends in, is what it would return and end in when
+    driven alone through the callbacks addressed to it: the other instances do not matter -/
+theorem runMulti_proj {W R C : Type} (step : W → C → W × R) (ws : Nat → W) (steps : List (Nat × C)) (k : Nat) :
+    resultsOf k (runMulti step ws steps).2 = (runSeq step (ws k) (stepsOf k steps)).2 ∧
+    (runMulti step ws steps).1 k = (runSeq step (ws k) (stepsOf k steps)).1 := by
+  induction steps generalizing ws with
+  | nil => exact ⟨rfl, rfl⟩
+  | cons st rest ih =>
+    obtain ⟨j, c⟩ := st
+    have ih' := ih (fun i => if i = j then (step (ws j) c).1 else ws i)
+    by_cases h : j = k
+    · subst h
+      simp only [if_true] at ih'
+      simp only [runMulti, resultsOf, stepsOf, List.filter_cons, beq_self_eq_true, if_true,
+        List.map_cons, runSeq] at ih' ⊢
+      exact ⟨by rw [ih'.1], ih'.2⟩
+    · have hb : (j == k) = false := by simpa using h
+      have hk : (if k = j then (step (ws j) c).1 else ws k) = ws k := by
+        rw [if_neg (fun e => h e.symm)]
+      simp only [hk] at ih'
+      simp only [runMulti, resultsOf, stepsOf, List.filter_cons, hb] at ih' ⊢
+      exact ih'
+
+theorem irun_eq_runSeq (P : XProto S σ) (w : IW S σ) (steps : List (Int × Callback S)) :
+    irun P w steps = runSeq (istep P) w steps := by
+  induction steps generalizing w with
+  | nil => rfl
+  | cons st rest ih =>
+    obtain ⟨t, cb⟩ := st
+    simp only [irun, runSeq, istep, ih]
+
+theorem prun_eq_runSeq (acc : PProv S → Act S → Bool) (P : XProto S σ) (w : PW S σ)
+    (steps : List (Int × Callback S)) : prun acc P w steps = runSeq (pstep acc P) w steps := by
+  induction steps generalizing w with
+  | nil => rfl
+  | cons st rest ih =>
+    obtain ⟨t, cb⟩ := st
+    simp only [prun, runSeq, pstep, ih]
+
 end Interop
